@@ -696,6 +696,9 @@ def run_C14(res, tier, seed, t_end, bad):
         nb = [f for f in fams]
         plan = Cp.plan_multi(nb, 60, churn=True, mutate=0.05)
         aio.run_async_campaign(res, 'C14', noblock(plan), budget(tier, 20, 400), seed + 1, t_end)
+    if not res.findings:
+        import clientlevel
+        clientlevel.run_C14(res, tier, seed, t_end)
 
 
 def noblock(plan):
@@ -768,6 +771,8 @@ def run_C20(res, tier, seed, t_end, bad):
         clientlevel.run_C20(res, tier, seed, t_end)
         if not res.findings:
             clientlevel.run_C20_asyncio(res, tier, seed, t_end)
+        if not res.findings:
+            clientlevel.run_C20_lockfree_close(res, tier, seed, t_end)
 
 
 def run_C13(res, tier, seed, t_end, bad):
@@ -809,6 +814,11 @@ def run_C12(res, tier, seed, t_end, bad):
             res.add({'kind': 'threads', 'verdict': 'violation', 'property': 'C12', 'clause': 'same_data', 'detail': 'split databases'})
             return
     constructor_race(res, tier, seed, t_end)
+    if not res.findings:
+        # commands that wait (BLPOP/BRPOPLPUSH) take effect in their LAST critical section: the scheduler harness drives the real
+        # _blocking code through every order of critical sections and compares with the sequential model
+        import blocking as Bl
+        Bl.run_sched_campaign(res, tier, seed + 12, t_end, budget(tier, 15, 400), 60)
 
 
 def constructor_race(res, tier, seed, t_end):
